@@ -445,6 +445,42 @@ func c15Out(c *Ctx, r *Report) {
 		}
 		r.check(len(ps) == 0, "C15.R4.sender", w.fn+":mac-chain", c.pos(wf.Pos()), "MAC in, MAC out", "%s", strings.Join(ps, "; "))
 	}
+	// a Transfer value may be used for more than one transfer: In() starts from a clean chain
+	if inFn := c.ssaFunc("Transfer.In"); inFn == nil {
+		r.cerr("C15.R3.timers-only", "Transfer.In:chain-reset", "function not found")
+	} else {
+		r.fn("Transfer.In")
+		var ps []string
+		writes := callsIn(inFn, "(Transfer).WriteMsg")
+		if len(writes) == 0 {
+			ps = append(ps, "In does not write the query")
+		}
+		for _, w := range writes {
+			for _, spec := range []struct {
+				field string
+				val   func(ssa.Value) bool
+				what  string
+			}{
+				{"tsigTimersOnly", func(v ssa.Value) bool { b, ok := constBool(v); return ok && !b }, "tsigTimersOnly = false"},
+				{"tsigRequestMAC", func(v ssa.Value) bool {
+					k, ok := v.(*ssa.Const)
+					return ok && k.Value != nil && k.Value.ExactString() == `""`
+				}, `tsigRequestMAC = ""`},
+			} {
+				found := false
+				sts := append(storesToField(inFn, "Transfer", spec.field), storesToField(inFn, "Conn", spec.field)...) // tsigRequestMAC is promoted from the embedded *Conn
+				for _, st := range sts {
+					if spec.val(st.Val) && precedes(st, w.(ssa.Instruction)) {
+						found = true
+					}
+				}
+				if !found {
+					ps = append(ps, fmt.Sprintf("%s: the query is written without %s having been stored first: a Transfer that was used before signs its next query in the state the previous transfer ended in (timers-only, chained to the old MAC), and the server refuses it", c.pos(w.Pos()), spec.what))
+				}
+			}
+		}
+		r.check(len(ps) == 0, "C15.R3.timers-only", "Transfer.In:chain-reset", c.pos(inFn.Pos()), "fresh chain per transfer", "%s", strings.Join(ps, "; "))
+	}
 	// a new signed request on a connection that served a transfer starts a fresh chain
 	if _, chain, pos, ok := serverTsigState(c); !ok {
 		r.cerr("C15.R4.sender", "Server.serveDNS:chain-reset", "function not found")
